@@ -19,4 +19,12 @@ void pl_lemma_secrepr(void)
   USE(lemma_dm_range_REQ(FD60(FD60(u))), lemma_dm_range_ENS(FD60(FD60(u))), "dm_range(u/3600)");
   __CPROVER_assert(lemma_secrepr_ENS(u), "lemma_secrepr.ENS");
 }
+void pl_lemma_osec_lex(void)
+{
+  fields a, b;
+  __CPROVER_assume(lemma_osec_lex_REQ(a, b));
+  USE(lemma_dayord_lex_REQ(a.y, a.m, a.d, b.y, b.m, b.d), lemma_dayord_lex_ENS(a.y, a.m, a.d, b.y, b.m, b.d), "dayord_lex");
+  BOUND_DAYORD(a.y, a.m, a.d); BOUND_DAYORD(b.y, b.m, b.d);
+  __CPROVER_assert(lemma_osec_lex_ENS(a, b), "lemma_osec_lex.ENS");
+}
 #pragma CPROVER check pop
